@@ -237,6 +237,9 @@ func listObjects(c *vk.Ctx, r *rand.Rand, p *sem.Prepared, rc *ref.Case, context
 				for _, ns := range servers {
 					lo := ns.s.ListObjects(drive.Req{Store: p.Store, Object: x.t, Relation: x.rel, User: subj, Ctx: rc.Context, Contextual: contextual})
 					c.Count("listobjects_answers", 1)
+					if sem.Hung(c, ns.name, lo) {
+						continue
+					}
 					if lo.Code == "PANIC" {
 						c.Violation("", "lo-panic|"+ns.name, "ListObjects panicked: "+lo.Err.Error(), map[string]any{"stack": lo.Panic, "model": p.Ref.DSL()})
 						continue
